@@ -201,7 +201,7 @@ def gen_harness(corpus, optname, wrappers, refs, strmax, argov={}, variants={}, 
                         cats[i] = (cat, base, bsuf)
                         body.append('  %s *%s = verif_make_%s(); %s *%s = verif_clone_%s(%s);' % (base, a, bsuf, base, b, bsuf, a))
                         post.append('  ASSERT(%%s verif_same_%s(%s, %s), "C01 wrapper leaves argument objects in the same state as the direct call");' % (bsuf, a, b))
-                        pyarg = 'vpy_uint((unsigned long)%s)' % a
+                        pyarg = 'vpy_ptr((void *)%s)' % a
                     elif cat == 'cstr':
                         body.append('  const char *%s = verif_make_cstr(); const char *%s = %s;' % (a, b, a))
                         pyarg = 'vpy_str(%s)' % a
